@@ -1,3 +1,132 @@
-/-! # C14 — property theorems (stub: nothing stated yet) -/
+import SR.Proofs.SemSC
+import SR.Proofs.SemObjects
+/-!
+# C14 — the sequential-consistency tester decides sequential consistency exactly
+
+Property theorems only. Model: `SR/Sem/SeqCons.lean` (`SCTester`, the literal transcription of
+sequential_consistency.rs) — tied to the generic `Tester false` by `SR/Proofs/SemSC.lean`.
+Declarative side: `IsSeqCons` = `IsLinearization` without the real-time conjunct (`SR/Sem/Spec.lean`).
+-/
 namespace SR.C14
+open SR.Sem SR.Sem.AMap
+
+variable {S Op Ret : Type} (spec : SeqSpec S Op Ret) (s0 : S)
+
+/-- any serialization the tester returns is a sequentially consistent one -/
+theorem C14_sound (hlaw : spec.Lawful) (es : List (Event Op Ret)) (l : List (Op × Ret))
+    (h : SCTester.serializedHistory spec (SCTester.record s0 es) = some l) : IsSeqCons spec s0 es l := by
+  rw [SCTester.serializedHistory_record] at h
+  exact tester_sound hlaw s0 es l h
+
+/-- if a well-formed history has a sequentially consistent serialization the search finds one -/
+theorem C14_complete (hlaw : spec.Lawful) (es : List (Event Op Ret)) (hwf : WellFormed es)
+    (h : ∃ l, IsSeqCons spec s0 es l) : (SCTester.serializedHistory spec (SCTester.record s0 es)).isSome = true := by
+  obtain ⟨l, hl⟩ := h
+  rw [SCTester.serializedHistory_record]
+  exact tester_complete hlaw s0 es hwf l hl
+
+theorem C14_consistent_iff (hlaw : spec.Lawful) (es : List (Event Op Ret)) (hwf : WellFormed es) :
+    SCTester.isConsistent spec (SCTester.record s0 es) = true ↔ ∃ l, IsSeqCons spec s0 es l := by
+  unfold SCTester.isConsistent
+  constructor
+  · intro h
+    cases hs : SCTester.serializedHistory spec (SCTester.record s0 es) with
+    | none => rw [hs] at h; cases h
+    | some l => exact ⟨l, C14_sound spec s0 hlaw es l hs⟩
+  · exact C14_complete spec s0 hlaw es hwf
+
+/-- a linearization is in particular sequentially consistent (drop the real-time conjunct) -/
+theorem C14_linearization_is_seqcons (es : List (Event Op Ret)) (l : List (Op × Ret))
+    (h : IsLinearization spec s0 es l) : IsSeqCons spec s0 es l := by
+  obtain ⟨ids, h1, h2, h3, h4, h5⟩ := h
+  refine ⟨ids, h1, h2, h3, ?_, h5⟩
+  refine h4.imp ?_
+  intro a b hn hm
+  rcases hm with hm | ⟨hf, _⟩
+  · exact hn (Or.inl hm)
+  · cases hf
+
+/-- every history accepted by the linearizability tester is accepted by this one -/
+theorem C14_lin_implies_sc (hlaw : spec.Lawful) (es : List (Event Op Ret))
+    (h : Tester.isConsistent spec (Tester.record true s0 es) = true) :
+    SCTester.isConsistent spec (SCTester.record s0 es) = true := by
+  unfold Tester.isConsistent at h
+  cases hs : Tester.serializedHistory spec (Tester.record true s0 es) with
+  | none => rw [hs] at h; cases h
+  | some l =>
+    have hl := tester_sound hlaw s0 es l hs
+    have hwf : WellFormed es := by
+      apply (record_valid_iff (rt := true) s0 es).1
+      cases hv : (Tester.record true s0 es).valid with
+      | true => rfl
+      | false => simp [Tester.serializedHistory, hv] at hs
+    exact (C14_consistent_iff spec s0 hlaw es hwf).2 ⟨l, C14_linearization_is_seqcons spec s0 es l hl⟩
+
+/-- every call on a well-formed history returns `Ok` -/
+theorem C14_wellformed_ok (es : List (Event Op Ret)) (hwf : WellFormed es) :
+    SCTester.results (SCTester.new s0) es = List.replicate es.length Res.ok := by
+  rw [SCTester.results_record]; exact results_wellFormed s0 es hwf
+
+/-- ill-formed histories: `Ok` up to the first inadmissible event, the matching error there,
+    "earlier history was invalid" ever after; inconsistent, no serialization, whatever follows -/
+theorem C14_illformed (p q : List (Event Op Ret)) (e : Event Op Ret) (hp : WellFormed p) (he : ¬ Admissible p e) :
+    SCTester.results (SCTester.new s0) (p ++ e :: q) =
+      List.replicate p.length Res.ok ++ errOf e :: List.replicate q.length Res.errEarlier ∧
+    SCTester.isConsistent spec (SCTester.record s0 (p ++ e :: q)) = false ∧
+    SCTester.serializedHistory spec (SCTester.record s0 (p ++ e :: q)) = none := by
+  have hn : SCTester.serializedHistory spec (SCTester.record s0 (p ++ e :: q)) = none := by
+    rw [SCTester.serializedHistory_record]
+    exact tester_illformed_none (rt := false) spec s0 (p ++ e :: q) (wellFormed_not_of_split he)
+  refine ⟨?_, by unfold SCTester.isConsistent; rw [hn]; rfl, hn⟩
+  rw [SCTester.results_record]
+  exact (illformed_record s0 hp he).2
+
+/-- an ill-formed history has a first inadmissible event (so `C14_illformed` always applies) -/
+theorem C14_illformed_split (es : List (Event Op Ret)) (h : ¬ WellFormed es) :
+    ∃ p e q, es = p ++ e :: q ∧ WellFormed p ∧ ¬ Admissible p e := by
+  rcases exists_first_illformed es with h' | h'
+  · exact absurd h' h
+  · exact h'
+
+/-- the validity flag is exactly well-formedness -/
+theorem C14_valid_iff (es : List (Event Op Ret)) : (SCTester.record s0 es).valid = true ↔ WellFormed es := by
+  have : (SCTester.record s0 es).valid = (Tester.record false s0 es).valid := by
+    rw [← SCTester.embed_record]; rfl
+  rw [this]; exact record_valid_iff s0 es
+
+/-- `len` = completed + in-flight operations = invocation events -/
+theorem C14_len (es : List (Event Op Ret)) (hwf : WellFormed es) :
+    (SCTester.record s0 es).len = (es.filter isInv).length := by
+  rw [SCTester.len_record_eq]; exact len_eq s0 es hwf
+
+/-- Testers are plain values: recording is a fold over the events, so the tester obtained by
+    extending a copy depends on the copy alone and the original `record s0 es` is whatever it was.
+    (Immediate in the model — persistent values cannot alias; that is why the implementation side of
+    C14 checks clone-and-extend directly.) -/
+theorem C14_value_semantics (es es' : List (Event Op Ret)) :
+    SCTester.record s0 (es ++ es') = es'.foldl (fun T e => (SCTester.step T e).1) (SCTester.record s0 es) ∧
+    Tester.record true s0 (es ++ es') = es'.foldl (fun T e => (Tester.step true T e).1) (Tester.record true s0 es) := by
+  constructor
+  · simp [SCTester.record, List.foldl_append]
+  · simp [Tester.record, List.foldl_append]
+
+/-! ## non-vacuity -/
+section examples
+/-- Push(10) completed, then Pop returning None: sequentially consistent, not linearizable -/
+def h2 : List (Event (VecOp Nat) (VecRet Nat)) :=
+  [.inv 0 (.push 10), .ret 0 .pushOk, .inv 1 .pop, .ret 1 (.popOk none)]
+
+example : SCTester.serializedHistory (vec Nat) (SCTester.record [] h2) = some [(.pop, .popOk none), (.push 10, .pushOk)] := by
+  decide
+example : IsSeqCons (vec Nat) [] h2 [(.pop, .popOk none), (.push 10, .pushOk)] :=
+  C14_sound (vec Nat) [] (vec_lawful Nat) h2 _ (by decide)
+example : Tester.isConsistent (vec Nat) (Tester.record true [] h2) = false := by decide
+example : WellFormed h2 := (C14_valid_iff ([] : List Nat) h2).1 (by decide)
+
+/-- a return without invocation -/
+example : SCTester.results (SCTester.new (0 : Nat))
+    ([.ret 0 .writeOk, .inv 0 .read] : List (Event (RegOp Nat) (RegRet Nat))) = [Res.errNoInFlight, Res.errEarlier] := by
+  decide
+end examples
+
 end SR.C14
